@@ -1190,7 +1190,7 @@ theorem C19_tap1_concluded_absorbing (c : Cfg) (s : St) (t : Int) (i : In) (h : 
 SUCCEEDED or FAILED sets `actions_concluded`, keeps the stage, and returns do-nothing. -/
 theorem C19_tap1_stops (c : Cfg) (s : St) (t : Int) (i : In) (h : Hist)
     (hrep : c.repeatKillChain = false) (hterm : s.cur = .succeeded ∨ s.cur = .failed)
-    (hex : executes s t = true) (hh : pyIndex s.hist s.curT = some h) :
+    (hex : executes s t = true) (hh : lookBack s = some h) :
     (getAction c s t i).1.concluded = true ∧
     ((getAction c s t i).1.cur = .succeeded ∨ (getAction c s t i).1.cur = .failed) ∧
     (getAction c s t i).2 = Act.nothing := by
@@ -1234,7 +1234,7 @@ SUCCEEDED or FAILED puts the agent back to NOT_STARTED (and, on the main path, s
 sets `actions_concluded`. -/
 theorem C19_tap1_restarts (c : Cfg) (s : St) (t : Int) (i : In) (h : Hist)
     (hrep : c.repeatKillChain = true) (hterm : s.cur = .succeeded ∨ s.cur = .failed)
-    (hex : executes s t = true) (hh : pyIndex s.hist s.curT = some h) :
+    (hex : executes s t = true) (hh : lookBack s = some h) :
     (getAction c s t i).1.concluded = false ∧
     ((getAction c s t i).1.cur = .notStarted ∨ (getAction c s t i).1.cur = .download) := by
   have hcon : s.concluded = false := by simp [executes] at hex; exact hex.2
@@ -1276,7 +1276,7 @@ PROPAGATE (which inspects scan responses itself) and in PAYLOAD after a failed e
 `continue_on_failed_exfil`. -/
 theorem C19_tap1_progress_only_after_success (c : Cfg) (s : St) (t : Int) (i : In)
     (hch : s.cur.chain = true) (hadv : (getAction c s t i).1.cur = s.cur.succ) :
-    executes s t = true ∧ ∃ h, pyIndex s.hist s.curT = some h ∧
+    executes s t = true ∧ ∃ h, lookBack s = some h ∧
       (h.resp.ok = true ∨ s.cur = .propagate ∨
         (s.cur = .payload ∧ s.prog = .inProgress ∧ c.continueOnFailedExfil = true)) := by
   have hne : s.cur.succ ≠ s.cur := by cases hc : s.cur <;> simp_all [Stage.succ, Stage.chain]
@@ -1481,7 +1481,7 @@ step's last `randint(-variance, variance)` draw (`d1`, or `d2` on the repeat-pre
 `|d| ≤ variance` the next slot is therefore the first timestep `≥ t + frequency − variance`, and no later than
 `t + max 1 (frequency + variance)`. -/
 theorem C19_tap1_reschedules (c : Cfg) (s : St) (t : Int) (i : In) (h : Hist)
-    (hex : executes s t = true) (hh : pyIndex s.hist s.curT = some h) (hv : 0 ≤ c.variance) :
+    (hex : executes s t = true) (hh : lookBack s = some h) (hv : 0 ≤ c.variance) :
     (getAction c s t i).1.nextExec = t + c.frequency + i.d1 ∨
     (getAction c s t i).1.nextExec = t + c.frequency + i.d2 := by
   unfold getAction
@@ -1569,7 +1569,7 @@ theorem res_of_soft_noprogress (x : Stage) (s' s : St)
   · exact Or.inl ⟨by rw [h1, h], by rw [hs.2, hn]⟩
   · exact Or.inr (Or.inr h1)
 
-theorem exploit_skip (c : Cfg) (s : St) (h : s.cur ≠ .exploit) : exploit c s = s := by simp [exploit, h]
+theorem exploit_skip (c : Cfg) (i : In) (s : St) (h : s.cur ≠ .exploit) : exploit c i s = s := by simp [exploit, h]
 theorem manipulation_skip (c : Cfg) (i : In) (s : St) (h : s.cur ≠ .manipulation) : manipulation c i s = s := by
   simp [manipulation, h]
 theorem access_skip (c : Cfg) (i : In) (s : St) (h : s.cur ≠ .access) : access c i s = s := by simp [access, h]
@@ -1582,10 +1582,9 @@ theorem fail_res (c : Cfg) (x : Stage) (s : St) (h : s.cur = x) (hn : s.nxt = x.
   res_of_soft_noprogress x _ s
     ((Soft.comp (fun s => by simp : Soft (fun s => { s with chosen := Act.nothing })) (soft_failStage c)) s) h hn
 
-theorem exploit_fire (c : Cfg) (s : St) (h : s.cur = .exploit) (hn : s.nxt = Stage.succ .exploit) :
-    Res .exploit (exploit c s) := by
-  unfold exploit
-  rw [if_neg (by simp [h])]
+theorem exploitBody_fire (c : Cfg) (s : St) (h : s.cur = .exploit) (hn : s.nxt = Stage.succ .exploit) :
+    Res .exploit (exploitBody c s) := by
+  unfold exploitBody
   split
   · exact Or.inl ⟨h, hn⟩
   · rename_i r _
@@ -1602,6 +1601,20 @@ theorem exploit_fire (c : Cfg) (s : St) (h : s.cur = .exploit) (hn : s.nxt = Sta
           (by simp only; rw [hs.2]; exact hn) hc
         exact Or.inr (Or.inl ⟨this.1, this.2.1⟩)
       · exact Or.inl ⟨hc, by rw [hs.2]; exact hn⟩
+
+theorem exploitEnter_fields (s : St) :
+    (exploitEnter s).cur = s.cur ∧ (exploitEnter s).nxt = s.nxt ∧ (exploitEnter s).nextExec = s.nextExec ∧
+    (exploitEnter s).concluded = s.concluded := by
+  unfold exploitEnter; split <;> simp
+
+theorem exploit_fire (c : Cfg) (i : In) (s : St) (h : s.cur = .exploit) (hn : s.nxt = Stage.succ .exploit) :
+    Res .exploit (exploit c i s) := by
+  unfold exploit
+  rw [if_neg (by simp [h])]
+  split
+  · exact fail_res c .exploit s h hn
+  · have he := exploitEnter_fields s
+    exact exploitBody_fire c _ (by rw [he.1]; exact h) (by rw [he.2.1]; exact hn)
 
 theorem manipulation_fire (c : Cfg) (i : In) (s : St) (h : s.cur = .manipulation) (hn : s.nxt = Stage.succ .manipulation) :
     Res .manipulation (manipulation c i s) := by
@@ -1657,7 +1670,7 @@ def rank : Stage → Nat
   | .succeeded => 7 | .failed => 7 | .embed => 8 | .conceal => 8 | .extract => 8 | .erase => 8
 
 def bodyAt (c : Cfg) (i : In) : Nat → St → St
-  | 0 => tapStart | 1 => reconnaissance | 2 => planning c i | 3 => access c i | 4 => manipulation c i | 5 => exploit c
+  | 0 => tapStart | 1 => reconnaissance | 2 => planning c i | 3 => access c i | 4 => manipulation c i | 5 => exploit c i
   | _ => id
 
 def applyDown (c : Cfg) (i : In) : Nat → St → St
@@ -1673,7 +1686,7 @@ theorem bodyAt_skip (c : Cfg) (i : In) (r : Nat) (s : St) (h : rank s.cur ≠ r)
   | 2 => exact planning_skip c i s (by intro hc; simp [hc, rank] at h)
   | 3 => exact access_skip c i s (by intro hc; simp [hc, rank] at h)
   | 4 => exact manipulation_skip c i s (by intro hc; simp [hc, rank] at h)
-  | 5 => exact exploit_skip c s (by intro hc; simp [hc, rank] at h)
+  | 5 => exact exploit_skip c i s (by intro hc; simp [hc, rank] at h)
   | _ + 6 => rfl
 
 theorem applyDown_skip (c : Cfg) (i : In) : ∀ (r : Nat) (s : St), r < rank s.cur → applyDown c i r s = s := by
@@ -1708,7 +1721,7 @@ theorem bodyAt_fire (c : Cfg) (i : In) (x : Stage) (hx : x.chain = true) (s : St
   · exact planning_fire c i s h hn
   · exact access_fire c i s h hn
   · exact manipulation_fire c i s h hn
-  · exact exploit_fire c s h hn
+  · exact exploit_fire c i s h hn
 
 theorem res_rank (x : Stage) (hx : x.chain = true) (s : St) (h : Res x s) : rank x ≤ rank s.cur := by
   rcases h with ⟨h, _⟩ | ⟨h, _⟩ | h <;> rw [h] <;> cases x <;> simp_all [Stage.chain, rank, Stage.succ]
@@ -2114,9 +2127,13 @@ theorem C19_tap3_nothing_before_start (c : Cfg) (d0 : Int) (s0 : St) (ins : List
   unfold exploitAct; split <;> simp
 @[simp] theorem ne_exploitFinish (s : St) : (exploitFinish s).nextExec = s.nextExec := by
   unfold exploitFinish; split <;> simp
-@[simp] theorem ne_exploit (c : Cfg) (s : St) : (exploit c s).nextExec = s.nextExec := by
-  unfold exploit; repeat' split
+@[simp] theorem ne_exploitBody (c : Cfg) (s : St) : (exploitBody c s).nextExec = s.nextExec := by
+  unfold exploitBody; repeat' split
   all_goals simp [St.raise]
+@[simp] theorem ne_exploitEnter (s : St) : (exploitEnter s).nextExec = s.nextExec := (exploitEnter_fields s).2.2.1
+@[simp] theorem ne_exploit (c : Cfg) (i : In) (s : St) : (exploit c i s).nextExec = s.nextExec := by
+  unfold exploit; repeat' split
+  all_goals simp
 @[simp] theorem ne_access (c : Cfg) (i : In) (s : St) : (access c i s).nextExec = s.nextExec := by
   unfold access; repeat' split
   all_goals simp
@@ -2139,7 +2156,7 @@ theorem setNext_next (c : Cfg) (s : St) (b d : Int) (h : 0 ≤ c.variance) : (se
 
 /-- **Every execution slot reschedules by `frequency + d1`** (TAP003). -/
 theorem C19_tap3_reschedules (c : Cfg) (s : St) (t : Int) (i : In) (h : Hist)
-    (hex : executes s t = true) (hh : pyIndex (preGuardHandlers c s).hist (preGuardHandlers c s).curT = some h)
+    (hex : executes s t = true) (hh : lookBack (preGuardHandlers c s) = some h)
     (hv : 0 ≤ c.variance) :
     (getAction c s t i).1.nextExec = t + c.frequency + i.d1 := by
   have hp := preGuard_fields c s
@@ -2156,11 +2173,27 @@ theorem C19_tap3_reschedules (c : Cfg) (s : St) (t : Int) (i : In) (h : Hist)
     simp only [ne_outcomeHandler]
     exact setNext_next c _ (t + c.frequency) i.d1 hv
 
-/-- Observation (not part of the property statement): `EXPLOIT.probability` is never read — the guard in `_exploit`
-compares the *stage* with `KillChainStageProgress.PENDING` and is always false. The model of `_exploit` therefore does
-not depend on it, and the rig (which varies the setting, including 0) confirms the implementation behaves the same. -/
-theorem C19_tap3_exploit_probability_unused (c : Cfg) (p : Prob) (s : St) :
-    exploit { c with pExploit := p } s = exploit c s := rfl
+/-- **`EXPLOIT.probability` is honoured** (after the repair of F-C19-3; before it the trial was dead code and a
+probability of 0 did not stop the exploit).  On entering EXPLOIT (stage progress PENDING) a failed trial makes `_exploit`
+choose do-nothing, leaves the stage progress PENDING (so the trial is repeated in the next slot) and moves the stage to
+FAILED exactly when stages are not repeated; no login or ACL action is issued. -/
+theorem C19_tap3_exploit_trial_gates (c : Cfg) (i : In) (s : St) (h : s.cur = .exploit) (hp : s.prog = .pending)
+    (ht : trial c.pExploit i.u = false) :
+    (exploit c i s).chosen = Act.nothing ∧ (exploit c i s).prog = .pending ∧ (exploit c i s).curAcl = s.curAcl ∧
+    (exploit c i s).cur = (if c.repeatStages then .exploit else .failed) := by
+  unfold exploit
+  rw [if_neg (by simp [h]), if_pos (by simp [hp, ht])]
+  unfold failStage
+  split <;> simp_all
+
+/-- A configured probability `≤ 0` never passes a trial, whatever the draw: with `EXPLOIT.probability: 0` the agent
+never leaves the PENDING half of EXPLOIT (together with `C19_tap3_exploit_trial_gates`). -/
+theorem C19_trial_zero_never_passes (p : Prob) (u : Unif) (h : p.num ≤ 0) : trial p u = false := by
+  unfold trial
+  have h1 : (0 : Int) ≤ (u.num : Int) * (p.den : Int) := Int.mul_nonneg (Int.natCast_nonneg _) (Int.natCast_nonneg _)
+  have h2 : p.num * (u.den : Int) ≤ 0 := Int.mul_nonpos_of_nonpos_of_nonneg h (Int.natCast_nonneg _)
+  simp only [decide_eq_false_iff_not]
+  omega
 
 end Tap3
 
